@@ -2,6 +2,7 @@ import Lean.Data.Json
 import NSG.Model.Basic
 import NSG.Model.World
 import NSG.Model.Defender
+import NSG.Model.Coord
 /-!
 Line-protocol driver: one JSON object per input line, one JSON object per output line.
 Only executable model definitions are used here; nothing is defaulted - an unknown op or a
@@ -121,10 +122,126 @@ def jtables (j : Json) : R Tables := do
 open NSG.Defender in
 def jact (j : Json) : R Act := do let (t, k) ← jpair jaty jnat j; return ⟨t, k⟩
 
+-- coordinator ----------------------------------------------------------------------------------
+open NSG.Coord in
+def jrole (j : Json) : R Role := do
+  match ← jstr j with
+  | "Attacker" => return .attacker | "Defender" => return .defender | "Benign" => return .benign
+  | s => throw s!"unknown role {s}"
+
+def orole : NSG.Coord.Role → Json
+  | .attacker => "Attacker" | .defender => "Defender" | .benign => "Benign"
+
+def ostatus : NSG.Coord.Status → Json
+  | .playing => "Playing" | .playingWithTimeout => "PlayingWithTimeout" | .timeoutReached => "TimeoutReached"
+  | .success => "Success" | .fail => "Fail"
+
+def ocode : NSG.Coord.Code → Json
+  | .ok => "OK" | .created => "CREATED" | .resetDone => "RESET_DONE" | .badRequest => "BAD_REQUEST" | .forbidden => "FORBIDDEN"
+
+def oint (i : Int) : Json := Json.num (JsonNumber.fromInt i)
+def oopt {α} (f : α → Json) : Option α → Json
+  | none => Json.null
+  | some x => f x
+
+def jopt {α} (f : Json → R α) (j : Json) : R (Option α) := if j.isNull then return none else return some (← f j)
+
+open NSG.Coord in
+def jgoal (j : Json) : R Goal := do
+  return { nets := ← jlist jnet (← jfield j "nets"), known := ← jlist jnat (← jfield j "known"),
+           controlled := ← jlist jnat (← jfield j "controlled"),
+           services := ← jmap jnat (jlist jservice) (← jfield j "services"),
+           data := ← jmap jnat (jlist jdata) (← jfield j "data"),
+           blocks := ← jmap jnat (jlist jnat) (← jfield j "blocks") }
+
+open NSG.Coord in
+def jsettings (tables : Option NSG.Defender.Tables) (j : Json) : R Settings := do
+  let ms ← jfield j "maxSteps"
+  let ga ← jgoal (← jfield (← jfield j "goal") "Attacker")
+  let gd ← jgoal (← jfield (← jfield j "goal") "Defender")
+  let gb ← jgoal (← jfield (← jfield j "goal") "Benign")
+  let ma ← jopt jnat (← jfield ms "Attacker")
+  let md ← jopt jnat (← jfield ms "Defender")
+  let mb ← jopt jnat (← jfield ms "Benign")
+  let useDef ← jbool (← jfield j "defender")
+  if useDef && tables.isNone then throw "defender requested but no tables loaded"
+  return { required := ← jnat (← jfield j "required"),
+           maxSteps := fun r => match r with | .attacker => ma | .defender => md | .benign => mb,
+           rStep := ← jint (← jfield j "rStep"), rSuccess := ← jint (← jfield j "rSuccess"), rFail := ← jint (← jfield j "rFail"),
+           goal := fun r => match r with | .attacker => ga | .defender => gd | .benign => gb,
+           defender := if useDef then tables else none, tw := ← jnat (← jfield j "tw"),
+           storeTraj := ← jbool (← jfield j "storeTraj") }
+
+open NSG.Coord in
+def joracle (j : Json) : R Oracle := do
+  let sv ← jopt jview (← jfield j "stepView")
+  let iv ← jopt jview (← jfield j "initView")
+  let rv ← jmap jnat jview (← jfield j "resetView")
+  let roll ← jfrac (← jfield j "roll")
+  return { stepView := sv, initView := iv.getD default, resetView := fun c => (alookup c rv).getD default, roll := roll }
+
+open NSG.Coord in
+def jmsg (j : Json) : R Msg := do
+  match ← jstr (← jfield j "k") with
+  | "bad" => return .bad
+  | "join" => return .join (← jstr (← jfield j "name")) (← jopt jrole (← jfield j "role"))
+  | "quit" => return .quit
+  | "reset" => return .reset (← jbool (← jfield j "traj"))
+  | "game" => return .game (← jact (← jfield j "act"))
+  | k => throw s!"unknown msg kind {k}"
+
+open NSG.Coord in
+def jev (j : Json) : R Ev := do
+  let c ← jnat (← jfield j "c")
+  match ← jstr (← jfield j "t") with
+  | "connect" => return .connect c
+  | "msg" => return .msg c (← jmsg (← jfield j "m")) (← joracle (← jfield j "o"))
+  | "leave" => return .leave c (← joracle (← jfield j "o"))
+  | "arm" => return .armWriteFault c
+  | t => throw s!"unknown event {t}"
+
+def oact (a : NSG.Defender.Act) : Json := Json.arr #[Json.str (match a.ty with
+  | .scanNetwork => "ScanNetwork" | .findServices => "FindServices" | .findData => "FindData"
+  | .exploitService => "ExploitService" | .exfiltrateData => "ExfiltrateData" | .blockIP => "BlockIP"
+  | .joinGame => "JoinGame" | .quitGame => "QuitGame" | .resetGame => "ResetGame"), onat a.key]
+
+def oobs (o : NSG.Coord.Obs) : Json := Json.mkObj [("view", oview o.view), ("reward", oint o.reward), ("end", o.ended), ("reason", oopt ostatus o.reason)]
+
+def otstep (t : NSG.Coord.TStep) : Json := Json.mkObj [("act", oact t.act), ("reward", oint t.reward), ("view", oview t.view)]
+
+def otraj (t : View × List NSG.Coord.TStep) : Json := Json.mkObj [("init", oview t.1), ("steps", olist otstep t.2)]
+
+def oreply (r : NSG.Coord.Reply) : List (String × Json) :=
+  [("code", ocode r.code), ("obs", oopt oobs r.obs), ("maxSteps", oopt (oopt onat) r.maxSteps), ("hasMaxSteps", r.maxSteps.isSome), ("traj", oopt otraj r.traj)]
+
+def oout : NSG.Coord.Out → Json
+  | .reply c r => Json.mkObj ([("k", Json.str "reply"), ("c", onat c)] ++ oreply r)
+  | .lost c r => Json.mkObj ([("k", Json.str "lost"), ("c", onat c)] ++ oreply r)
+  | .closed c => Json.mkObj [("k", "closed"), ("c", onat c)]
+  | .refused c => Json.mkObj [("k", "refused"), ("c", onat c)]
+
+def ophase : NSG.Coord.Phase → Json
+  | .absent => "absent" | .reading => "reading" | .dead => "dead" | .closed => "closed"
+  | .parked .joinStart => "parked:joinStart" | .parked (.gameEnd _) => "parked:gameEnd"
+  | .parked (.resetWait _) => "parked:resetWait" | .parked (.resetStart _) => "parked:resetStart"
+
+def oagent (a : NSG.Coord.Agent) : Json := Json.mkObj [
+  ("name", a.name), ("role", orole a.role), ("view", oview a.view), ("steps", onat a.steps), ("status", ostatus a.status),
+  ("ended", a.ended), ("resetReq", a.resetReq), ("reward", oint a.reward), ("paid", a.paid), ("obs", oobs a.obs),
+  ("trajInit", oview a.trajInit), ("traj", olist otstep a.traj)]
+
+def ocoord (s : NSG.Coord.St) (seen : List Nat) : Json := Json.mkObj [
+  ("slots", onat s.slots), ("ids", olist onat s.ids), ("startEv", s.startEv), ("files", onat s.files.length),
+  ("conns", olist (fun c => Json.arr #[onat c, ophase (s.conn c)]) seen),
+  ("agents", olist (fun c => Json.arr #[onat c, oagent (s.agent c)]) s.ids)]
+
 -- state ----------------------------------------------------------------------------------------
 structure DState where
   world : World := default
   tables : Option NSG.Defender.Tables := none
+  settings : Option NSG.Coord.Settings := none
+  cst : NSG.Coord.St := NSG.Coord.init
+  seen : List Nat := []
 
 def handle (st : DState) (j : Json) : R (DState × Json) := do
   let op ← jstr (← jfield j "op")
@@ -165,6 +282,27 @@ def handle (st : DState) (j : Json) : R (DState × Json) := do
       let roll ← jfrac (← jfield j "roll")
       return (st, Json.mkObj [("detected", NSG.Defender.detect T tw hist a roll), ("trigger", NSG.Defender.trigger T tw hist a),
         ("monitored", NSG.Defender.monitored T a.ty), ("full", decide (tw ≤ hist.length + 1))])
+  | "coord_init" =>
+    let S ← jsettings st.tables (← jfield j "settings")
+    return ({ st with settings := some S, cst := NSG.Coord.init, seen := [] }, Json.mkObj [("ok", true)])
+  | "ev" =>
+    match st.settings with
+    | none => throw "no settings"
+    | some S =>
+      let e ← jev (← jfield j "ev")
+      let c ← jnat (← jfield (← jfield j "ev") "c")
+      let (s', outs) := NSG.Coord.deliver S st.cst e
+      let seen := if c ∈ st.seen then st.seen else st.seen ++ [c]
+      let full := (← jbool (← jfield j "full"))
+      return ({ st with cst := s', seen := seen }, Json.mkObj [("out", olist oout outs),
+        ("state", if full then ocoord s' seen else Json.null)])
+  | "goal" =>
+    let g ← jgoal (← jfield j "goal")
+    let v ← jview (← jfield j "view")
+    return (st, Json.mkObj [("goal", NSG.Coord.goalCheck g v)])
+  | "files" =>
+    return (st, Json.mkObj [("files", olist (fun (f : String × NSG.Coord.Role × View × List NSG.Coord.TStep) =>
+      Json.mkObj [("name", f.1), ("role", orole f.2.1), ("traj", otraj f.2.2)]) st.cst.files)])
   | _ => throw s!"unknown op {op}"
 
 partial def loop (h : IO.FS.Stream) (out : IO.FS.Stream) (st : DState) : IO Unit := do
